@@ -355,6 +355,8 @@ inline std::vector<double> alphabet(const std::string &name) {
     if (name == "M3") return {-3};      // w_i = 1 + (i mod 3)
     // fixed menus of pseudo-random weightings: "R9x4" = 4 weightings per graph with weights 1..9 from a deterministic LCG.
     // A menu is a finite list enumerated completely on every run (a fixed corpus, not a sample drawn at run time).
+    // "Q36x5": 5 weightings with dyadic weights (1..36)/4; "T97x5": decimal weights (1..97)/10 (not exactly summable: C09 only)
+    if (name.size() >= 4 && (name[0] == 'Q' || name[0] == 'T') && name.find('x') != std::string::npos) { int k = atoi(name.c_str() + 1), cnt = atoi(name.c_str() + name.find('x') + 1); return {(name[0] == 'Q' ? -2000.0 : -3000.0) - k, (double) cnt}; }
     if (name.size() >= 4 && name[0] == 'R' && name.find('x') != std::string::npos) { int k = atoi(name.c_str() + 1), cnt = atoi(name.c_str() + name.find('x') + 1); return {-1000.0 - k, (double) cnt}; }
     if (name == "H3") return {1, 1000, 2000};
     if (name == "H4") return {1, 3, 1000, 2000};        // two light values (a chord heavier than the path around it), heavy, heavier
@@ -374,6 +376,8 @@ inline std::vector<double> alphabet(const std::string &name) {
 inline bool &plus_heavy_k2() { static bool b = false; return b; }
 constexpr double HEAVY_K2 = 1152921504606846976.0;
 inline bool is_random_menu(const std::vector<double> &A) { return A.size() == 2 && A[0] <= -1000; }
+inline double menu_scale(const std::vector<double> &A) { return A[0] <= -3000 ? 0.1 : A[0] <= -2000 ? 0.25 : 1.0; }
+inline int menu_range(const std::vector<double> &A) { double a = -A[0]; return (int) (a >= 3000 ? a - 3000 : a >= 2000 ? a - 2000 : a - 1000); }
 // number of weightings of an m-edge graph over alphabet A
 inline uint64_t num_weightings(const std::vector<double> &A, int m) {
     if (plus_heavy_k2() && m >= 1) m -= 1;
@@ -388,7 +392,7 @@ inline uint64_t num_weightings(const std::vector<double> &A, int m) {
 inline void weighting(const std::vector<double> &A, int m, uint64_t idx, std::vector<double> &w) {
     if (plus_heavy_k2() && m >= 1) { bool &f = plus_heavy_k2(); f = false; weighting(A, m - 1, idx, w); f = true; w.push_back(HEAVY_K2); return; }
     w.resize(m);
-    if (is_random_menu(A)) { int k = (int) (-A[0] - 1000); uint64_t st = 0x9e3779b97f4a7c15ull ^ (idx * 1000003ull + (uint64_t) m * 7919ull); lcg_next(st); for (int i = 0; i < m; ++i) w[i] = 1 + (double) (lcg_next(st) % (uint64_t) k); return; }
+    if (is_random_menu(A)) { int k = menu_range(A); uint64_t st = 0x9e3779b97f4a7c15ull ^ (idx * 1000003ull + (uint64_t) m * 7919ull); lcg_next(st); for (int i = 0; i < m; ++i) { double v = 1 + (double) (lcg_next(st) % (uint64_t) k); w[i] = A[0] <= -3000 ? v / 10.0 : v * menu_scale(A); } return; }
     if (A.size() == 1 && A[0] == -600) { for (int i = 1; i < m; ++i) w[i] = 1 + ((idx >> (i - 1)) & 1); if (m > 0) w[0] = 1000; return; }
     if (A.size() == 1 && (A[0] == -700 || A[0] == -701)) {      // factoradic unranking of permutation number idx
         std::vector<int> pool(m); for (int i = 0; i < m; ++i) pool[i] = i;
